@@ -141,7 +141,8 @@ class GraphDependency {
   // 依赖是否有效
   // 当条件就绪且成立后修改成true
   // 只有有效的依赖，才能进一步获取到值
-  bool _established {false};
+  // written with the same value by concurrent activate/ready paths
+  ::std::atomic<bool> _established {false};
   bool _ready {false};
 
   // 是否强依赖，如果强依赖则要求target不为空才能触发_source
